@@ -17,11 +17,11 @@ import numpy as np
 import common as C
 
 MODE_NO = 48            # modes of the randomization method in histories (cost only; any value works)
-NC, NK, NP = 21, 3, 9   # trace row layout: result block, (cnames, knames, haspos), cur_desc + seed
+NC, NK, NP = 21, 3, 11  # trace row layout: result block, (cnames, knames, haspos), cur_desc + seeds of objects 0..2
 OPN = ["Call", "SetPos", "SetCond:NewVals", "SetCond:NewPos", "SetCond:Refresh", "ModelInplace", "SetModel",
        "SetMean", "SetTrend", "SetNorm", "SetGen", "MutatePosInPlace", "DirectKrigeCall", "AssignPos", "ReassignSameModel",
-       "MutateCondArrayInPlace", "SetCond:NewErr"]
-NCOL = 10               # row = [code, haspos, base, jit, mesh, seed+1, nosave, chunk option, store-name set, ext-drift id]
+       "MutateCondArrayInPlace", "SetCond:NewErr", "OtherObjects"]
+NCOL = 11               # row = [code, haspos, base, jit, mesh, seed+1, nosave, chunk option, store-name set, ext-drift id]
 
 
 def chunk_size_for(code, npts):
@@ -37,22 +37,19 @@ def chunk_size_for(code, npts):
         return npts + 3
     return None
 NAMESETS = [["field", "raw_field", "raw_krige"], ["upd", "upd_raw", "upd_krige"], ["alt", "alt_raw", "alt_krige"]]
-FIELD_CODES_C = {3 * a + i: NAMESETS[a][i] for a in range(3) for i in range(3)}
+FIELD_CODES_C = {12 * ob + 3 * a + i: (ob, NAMESETS[a][i]) for ob in range(3) for a in range(3) for i in range(3)}
 FIELD_CODES_K = {0: "field", 1: "krige_var"}
 
 
-def dec_names(z, table):
-    out = []
-    z = int(z)
-    while z > 0:
-        out.append(table[(z % 16) - 1])
-        z //= 16
-    return out[::-1]
+def dec_names(codes, table):
+    return [table[int(c) - 1] for c in codes if int(c) > 0]
 
 
-def ext_fun(*x):
-    """external drift as a function of the position"""
-    return 0.3 * np.asarray(x[0], dtype=float) + 0.1
+def ext_fun(*x, k=1):
+    """k external drifts as functions of the position: shape (n,) for k = 1, (k, n) otherwise"""
+    x0, xl = np.asarray(x[0], dtype=float), np.asarray(x[-1], dtype=float)
+    rows = [0.3 * x0 + 0.1, 0.25 * np.sin(1.3 * x0) + 0.05 * xl + 0.2][:k]
+    return rows[0] if k == 1 else np.array(rows)
 
 
 def trend_fn(a):
@@ -77,7 +74,11 @@ class World:
         self.nc = int(r.integers(3, 6))
         self.nc = max(self.nc, self.dim + 3) if r.random() < 0.4 else self.nc
         self.drift = "linear" if self.nc >= self.dim + 3 and r.random() < 0.8 else None   # functional drift (universal kriging)
-        self.ext = bool(self.drift is None and r.random() < 0.25)      # external drift (conditioning arrays: cond_pos, cond_val, ext_drift)
+        # external drifts: none / one / two, WITH or without the functional drift (generic Krige class)
+        self.next = int(r.choice([0, 0, 0, 1, 1, 2]))
+        self.ext = self.next > 0
+        if self.ext:
+            self.nc = max(self.nc, self.dim + 3 + self.next)
         self.seed0 = int(r.integers(1, 1000))      # small: seeds are unary naturals in the extracted model
         # position pool: base -> per-axis coordinates in [1, 6] (so that the np.allclose window is >= 1e-5)
         self.bases = []
@@ -96,8 +97,6 @@ class World:
         self.model = {}
         self.mtn = {}
         self.cur_cond = self.new_cond(True)
-        if self.ext:
-            self.drift = None
         self.cur_model = self.new_model()
         self.cur_mtn = dict(mean=None if self.unbiased and r.random() < 0.5 else float(r.normal()), trend=None, normalizer=None)
 
@@ -198,7 +197,7 @@ class World:
             g = np.array(np.meshgrid(*ax, indexing="ij")).reshape(self.dim, -1)
         else:
             g = np.array(ax)
-        return dict(ext_drift=np.array(ext_fun(*g) + xd * (0.4 + 0.5 * np.sin(3.0 * g[0])), dtype=np.double))
+        return dict(ext_drift=np.array(ext_fun(*g, k=self.next) + xd * (0.4 + 0.5 * np.sin(3.0 * g[0])), dtype=np.double))
 
     def user_cond(self, cond):
         """the float64 arrays the CALLER passes as conditions (kept, so that they can be edited in place later)"""
@@ -206,14 +205,14 @@ class World:
         if isinstance(cond[2], np.ndarray):
             self.ucond["err"] = np.array(cond[2], dtype=np.double)
         if self.ext:
-            self.ucond["ext"] = np.array(ext_fun(*cond[0]), dtype=np.double)
+            self.ucond["ext"] = np.array(ext_fun(*cond[0], k=self.next), dtype=np.double)
         return self.ucond
 
     # ---- builders
     def krige(self, cond, model_mat, mtn, model_rhs=None):
         gs = self.gs
         kr = gs.krige.Krige(copy.deepcopy(model_mat), [a.copy() for a in cond[0]], cond[1].copy(),
-                            drift_functions=self.drift, ext_drift=ext_fun(*cond[0]) if self.ext else None,
+                            drift_functions=self.drift, ext_drift=ext_fun(*cond[0], k=self.next) if self.ext else None,
                             mean=mtn["mean"], normalizer=copy.deepcopy(mtn["normalizer"]),
                             trend=mtn["trend"], unbiased=self.unbiased, **cerr_kw(cond))
         if model_rhs is not None:
@@ -221,9 +220,9 @@ class World:
             gs.field.base.Field.model.fset(kr, copy.deepcopy(model_rhs))
         return kr
 
-    def fresh_field(self, model, cond, mtn, seed, pos, mesh, ext_kw):
+    def fresh_field(self, model, cond, mtn, seed, pos, mesh, ext_kw, mode_no=MODE_NO):
         kr = self.krige(cond, model, mtn)
-        c = self.gs.CondSRF(kr, seed=seed, mode_no=MODE_NO)
+        c = self.gs.CondSRF(kr, seed=seed, mode_no=mode_no)
         f = c(pos, mesh_type=mesh, **ext_kw)
         return f, dict(raw_krige=c.raw_krige, raw_field=c.raw_field, krige_var=c.krige.krige_var, krige_field=c.krige.field)
 
@@ -253,6 +252,8 @@ def gen_rows(rng, nops, allow_jit):
     cur = None        # (base, jit, mesh) last passed = content of the caller's array
     # the store-name sets used by this history: mostly the default, often two or three different ones
     nsets = [[0], [0, 1], [0, 1, 2], [1, 2]][int(rng.choice(4, p=[0.45, 0.3, 0.15, 0.1]))]
+    # the number of CondSRF objects sharing the one Krige object
+    nobj = int(rng.choice([1, 2, 3], p=[0.5, 0.3, 0.2]))
 
     def new_base():
         """a new position id: a random pool entry, or one that KEEPS some coordinate rows / axes of the present positions"""
@@ -263,7 +264,7 @@ def gen_rows(rng, nops, allow_jit):
         return int(rng.integers(4)) + 4 * int(rng.choice([0, 0, 0, 2, 3]))
 
     def call_row(haspos, b=0, j=0, m=0):
-        row = [0, haspos, b, j, m, 0, 0, 0, int(nsets[int(rng.integers(len(nsets)))]), int(rng.choice([0, 0, 0, 1, 2]))]
+        row = [0, haspos, b, j, m, 0, 0, 0, int(nsets[int(rng.integers(len(nsets)))]), int(rng.choice([0, 0, 0, 1, 2])), int(rng.integers(nobj))]
         if rng.random() < 0.5:
             row[5] = 1 + int(rng.integers(1, 2000))
         if rng.random() < 0.12:
@@ -319,7 +320,7 @@ def gen_rows(rng, nops, allow_jit):
                 b, j, m = cur
                 if allow_jit:
                     j = int(rng.integers(0, 4))
-            rows.append([1, 1, b, j, m])
+            rows.append([1, 1, b, j, m, 0, 0, 0, 0, 0, int(rng.integers(nobj))])
             cur = (b, j, m)
         elif u < 0.53:
             rows.append([2])
@@ -343,11 +344,13 @@ def gen_rows(rng, nops, allow_jit):
         elif u < 0.91:
             rows.append([9])
         elif u < 0.94:
-            rows.append([10, 0, 0, 0, 0, 1 + int(rng.integers(1, 2000))])
+            rows.append([10, 0, 0, 0, 0, 1 + int(rng.integers(1, 2000)), 0, 0, 0, 0, int(rng.integers(nobj))])
         elif u < 0.955:
             rows.append([14])
-        elif u < 0.975:
+        elif u < 0.97:
             rows.append([16])                                # set_condition(cond_err=...)
+        elif u < 0.985:
+            rows.append([17])                                # other CondSRF / Krige objects are built and called
         else:
             rows.append([15])                                # the caller edits cond_pos / cond_val / ext_drift arrays in place
     return rows
@@ -389,11 +392,13 @@ class HistoryRunner:
         if not w.ext:
             for r in rows:
                 r[9] = 0            # no external drift in this world
-        case = dict(history=dict(wseed=int(wseed), rows=rows), dim=w.dim, ext_drift=w.ext, unbiased=w.unbiased, drift=w.drift,
-                    ops=[OPN[r[0]] for r in rows], origin=origin)
+        nobj = 1 + max(r[10] for r in rows)
+        case = dict(history=dict(wseed=int(wseed), rows=rows), dim=w.dim, ext_drifts=w.next, unbiased=w.unbiased, drift=w.drift,
+                    condsrf_objects_on_one_krige=nobj, ops=[OPN[r[0]] for r in rows], origin=origin)
         trace = None
+        mrows = [r for r in rows if r[0] != 17]          # "OtherObjects" is not an operation of the model (nothing may change)
         if self.drv is not None:
-            trace = self.drv.call("trace", True, True, True, True, True, True, True, ("n", w.seed0), np.array(rows, dtype=np.int64))
+            trace = self.drv.call("trace", True, True, True, True, True, True, True, True, ("n", w.seed0), np.array(mrows, dtype=np.int64))
             if isinstance(trace, tuple) and trace and trace[0] == "error":
                 self.tie_broken.append("model trace failed: %r" % (trace,))
                 trace = None
@@ -401,9 +406,17 @@ class HistoryRunner:
         live_model = copy.deepcopy(w.cur_model)
         uc = w.user_cond(w.cur_cond)
         ckw = {} if w.cur_cond[2] is None else dict(cond_err=uc.get("err", w.cur_cond[2]))
-        kr = gs.krige.Krige(live_model, uc["pos"], uc["val"], drift_functions=w.drift, ext_drift=uc.get("ext"),
-                            mean=w.cur_mtn["mean"], normalizer=None, trend=None, unbiased=w.unbiased, **ckw)
-        csrf = gs.CondSRF(kr, seed=w.seed0, mode_no=MODE_NO)
+        try:
+            kr = gs.krige.Krige(live_model, uc["pos"], uc["val"], drift_functions=w.drift, ext_drift=uc.get("ext"),
+                                mean=w.cur_mtn["mean"], normalizer=None, trend=None, unbiased=w.unbiased, **ckw)
+            # several CondSRF objects share the ONE Krige object (different seeds / mode numbers)
+            objs = [gs.CondSRF(kr, seed=w.seed0 + ob, mode_no=MODE_NO + 8 * ob) for ob in range(nobj)]
+        except Exception as e:  # noqa
+            ctx.violation("probe: history", "building Krige / CondSRF with documented options raised %r" % (e,),
+                          dict(case, cond_pos=np.array(w.cur_cond[0]).tolist(), cond_val=np.asarray(w.cur_cond[1]).tolist(), model=repr(live_model)),
+                          key="history:exception:construction")
+            return case
+        csrf = objs[0]
         calls = [0]
         orig = kr._summate
 
@@ -413,8 +426,9 @@ class HistoryRunner:
         kr._summate = counting
         w.cur_mtn = dict(mean=kr.mean, trend=None, normalizer=kr.normalizer)
         w.cond[0], w.model[0], w.mtn[0] = w.cur_cond, copy.deepcopy(live_model), dict(w.cur_mtn)
-        cur_seed = w.seed0
+        cur_seed = [w.seed0 + ob for ob in range(3)]
         cur_pos = None          # (base, jit, mesh)
+        recs, ti = [], 0
         dirty = False
         jittered = False
         cur_xd = 0              # id of the external drift values last given for the target points
@@ -423,12 +437,15 @@ class HistoryRunner:
         for i, r in enumerate(rows):
             code = r[0]
             kind, out, reuse = 0, None, None
+            csrf = objs[r[10]]
             try:
-                if code == 0:
+                if code == 17:
+                    self.other_objects(w)
+                elif code == 0:
                     calls[0] = 0
                     sd = np.nan if r[5] == 0 else r[5] - 1
                     if r[5]:
-                        cur_seed = r[5] - 1
+                        cur_seed[r[10]] = r[5] - 1
                     kind = 2
                     if r[1]:
                         if cur_pos is not None and cur_pos[0] == r[2] and cur_pos[2] == r[4] and cur_pos[1] != r[3]:
@@ -509,8 +526,8 @@ class HistoryRunner:
                     w.cur_mtn = dict(w.cur_mtn, normalizer=csrf.normalizer)
                     last_change = OPN[code]
                 elif code == 10:
-                    cur_seed = r[5] - 1
-                    csrf.set_generator("RandMeth", seed=cur_seed, mode_no=MODE_NO)
+                    cur_seed[r[10]] = r[5] - 1
+                    csrf.set_generator("RandMeth", seed=cur_seed[r[10]], mode_no=MODE_NO + 8 * r[10])
                 elif code == 11:
                     # the stored positions must not follow the caller's edit (cur_pos unchanged)
                     w.mutate_user(r[2])
@@ -565,30 +582,102 @@ class HistoryRunner:
                 ctx.violation("probe: history", "unexpected %s in op %d (%s): %s" % (type(e).__name__, i, OPN[code], e),
                               dict(case, failed_op=i), key="history:exception:" + OPN[code])
                 return
-            model_now = copy.deepcopy(csrf.model)
+            # ---- RECORD only: no reference object is built before the whole history has run (another CondSRF created or
+            # called in between could mask or cause cross-object effects)
+            recs.append(dict(i=i, r=r, code=code, kind=kind, out=out, reuse=reuse, ti=(None if code == 17 else ti),
+                             model_now=copy.deepcopy(kr.model), cur_cond=w.cur_cond,
+                             cur_mtn=dict(w.cur_mtn, normalizer=copy.deepcopy(w.cur_mtn["normalizer"])), seeds=list(cur_seed),
+                             cur_pos=cur_pos, cur_xd=cur_xd, dirty=dirty, kv_here=(kv_pos == (cur_pos, cur_xd)), jittered=jittered,
+                             last_change=last_change, snap=self.snapshot(objs, kr, r, kind)))
+            if code != 17:
+                ti += 1
+        # ---- closing step (outside the model trace): a call AT the present conditioning points
+        closing = None
+        try:
+            cp = np.array(w.cur_cond[0])
+            ekw = dict(ext_drift=ext_fun(*cp, k=w.next)) if w.ext else {}
+            condK = kmat_cond(kr)
+            cout = np.array(objs[0](cp.copy(), **ekw), copy=True)
+            closing = dict(out=cout, kvar=np.array(kr.krige_var, copy=True), raw=np.array(objs[0].raw_field, copy=True), condK=condK,
+                           model=copy.deepcopy(kr.model), seed=cur_seed[0], cur_cond=w.cur_cond,
+                           cur_mtn=dict(w.cur_mtn, normalizer=copy.deepcopy(w.cur_mtn["normalizer"])), ekw=ekw)
+        except Exception as e:  # noqa
+            ctx.violation("probe: history", "exception in the closing call at the conditioning points: %r" % (e,), case, key="history:exception:closing")
+            return case
+        return self.verify(w, wseed, recs, trace, case, closing)
+
+    @staticmethod
+    def snapshot(objs, kr, r, kind):
+        """copies of everything that is compared later"""
+        def cp(a):
+            return None if a is None else np.array(a, copy=True)
+        sn = dict(cnames=[list(c.field_names) for c in objs], knames=list(kr.field_names), haspos=kr.pos is not None,
+                  cond_val=cp(kr.cond_val), cond_pos=cp(kr.cond_pos), cond_ext=cp(kr.cond_ext_drift), cond_err=cp(kr.cond_err),
+                  kmat=cp(kr._krige_mat), kpos=cp(kr._krige_pos), kcond=cp(kr._krige_cond),
+                  krige_var=cp(kr.krige_var) if "krige_var" in kr.field_names else None,
+                  krige_field=cp(kr.field) if "field" in kr.field_names else None)
+        if kind == 2:
+            c, nm = objs[r[10]], NAMESETS[r[8]]
+            sn["stored"] = dict(raw_field=cp(c[nm[1]]), krige_var=cp(kr.krige_var), krige_field=cp(kr.field))
+            if not r[6]:        # a call that does not store the raw kriging field leaves a previously stored one alone
+                sn["stored"]["raw_krige"] = cp(c[nm[2]])
+        return sn
+
+    def other_objects(self, w):
+        """interference: other CondSRF objects on ANOTHER Krige object are built and called (must not influence anything)"""
+        gs = w.gs
+        if getattr(w, "other", None) is None:
+            okr = gs.krige.Ordinary(gs.Gaussian(dim=w.dim, var=0.7, len_scale=1.1), w.rng.uniform(1, 6, size=(w.dim, 4)), w.rng.normal(size=4))
+            w.other = [gs.CondSRF(okr, seed=3, mode_no=16), gs.CondSRF(okr, seed=4, mode_no=24)]
+        p = w.rng.uniform(1, 6, size=(w.dim, 3))
+        w.other[0](p)
+        w.other[1]()
+        w.other[0].krige.set_condition(cond_val=w.rng.normal(size=4))
+        w.other[1]()
+        gs.CondSRF(gs.krige.Simple(gs.Exponential(dim=w.dim), w.rng.uniform(1, 6, size=(w.dim, 3)), w.rng.normal(size=3)), seed=1, mode_no=16)(p)
+
+    def verify(self, w, wseed, recs, trace, case, closing):
+        try:
+            return self._verify(w, wseed, recs, trace, case, closing)
+        except Exception as e:  # noqa
+            import traceback
+            self.ctx.violation("probe: history", "a reference object built from the present settings of the history raised %r" % (e,),
+                               dict(case, traceback=traceback.format_exc()[-1500:]), key="history:exception:reference")
+            return case
+
+    def _verify(self, w, wseed, recs, trace, case, closing):
+        ctx = self.ctx
+        for rec in recs:
+            i, r, code, kind, out, reuse = rec["i"], rec["r"], rec["code"], rec["kind"], rec["out"], rec["reuse"]
+            model_now, cur_pos, cur_xd, dirty, jittered, last_change = (rec[k] for k in ("model_now", "cur_pos", "cur_xd", "dirty", "jittered", "last_change"))
+            w.cur_cond, w.cur_mtn = rec["cur_cond"], rec["cur_mtn"]
+            sn, ob = rec["snap"], r[10]
+            cur_seed = rec["seeds"][ob]
             # ---- correspondence with the model trace
-            if trace is not None:
-                row = [int(x) for x in trace[i]]
+            if trace is not None and rec["ti"] is not None:
+                row = [int(x) for x in trace[rec["ti"]]]
                 res, st = row[:NC], row[NC:]
-                cd = dict(pos=(st[3], st[4]), ext=st[5], mesh=st[6], cond=st[7], matmodel=st[8], model=st[9], mtn=st[10], seed=st[11])
+                ncn, nkn = st[:27], st[27:29]
+                st = [0, 0] + st[29:]          # [_, _, haspos, cur_desc (8), seeds (3)]
+                cd = dict(pos=(st[3], st[4]), ext=st[5], mesh=st[6], cond=st[7], matmodel=st[8], model=st[9], mtn=st[10], seeds=st[11:14])
                 # bind the model's new version numbers to the concrete contents installed by this operation
                 w.cond.setdefault(cd["cond"], w.cur_cond)
                 w.model.setdefault(cd["model"], model_now)
                 w.mtn.setdefault(cd["mtn"], dict(w.cur_mtn))
-                obs = dict(kind=kind, cnames=list(csrf.field_names), knames=list(csrf.krige.field_names),
-                           haspos=csrf.pos is not None, seed=cur_seed)
-                exp = dict(kind=res[0], cnames=dec_names(st[0], FIELD_CODES_C), knames=dec_names(st[1], FIELD_CODES_K),
-                           haspos=bool(st[2]), seed=cd["seed"])
+                mnames = dec_names(ncn, FIELD_CODES_C)
+                obs = dict(kind=kind, cnames=sn["cnames"], knames=sn["knames"], haspos=sn["haspos"], seeds=rec["seeds"][:len(sn["cnames"])])
+                exp = dict(kind=res[0], cnames=[[n for (o, n) in mnames if o == k] for k in range(len(sn["cnames"]))],
+                           knames=dec_names(nkn, FIELD_CODES_K), haspos=bool(st[2]), seeds=cd["seeds"][:len(sn["cnames"])])
                 if kind == 2:
                     obs["reuse"] = bool(reuse)
                     exp["reuse"] = bool(res[1])
                 if obs != exp:
                     self.tie_broken.append("op %d (%s) of history wseed=%d: implementation %r, model %r" % (i, OPN[code], wseed, obs, exp))
                     case["tie_mismatch"] = dict(op=i, observed=obs, model=exp)
-                    trace = None        # keep running the history: the property probe looks for a failing input
+                    trace = None        # keep checking the history: the property probe looks for a failing input
                 # settings the model believes are current must be the harness' current contents
                 elif not (same_model(w.model[cd["model"]], model_now) and w.cond[cd["cond"]] is w.cur_cond
-                        and mtn_repr(w.mtn[cd["mtn"]]) == mtn_repr(w.cur_mtn)):
+                          and mtn_repr(w.mtn[cd["mtn"]]) == mtn_repr(w.cur_mtn)):
                     self.tie_broken.append("op %d (%s) wseed=%d: model version numbers do not follow the installed settings" % (i, OPN[code], wseed))
                     trace = None
                 elif kind == 2 and res[0] == 2:
@@ -596,7 +685,7 @@ class HistoryRunner:
                     v = dict(pos=(res[10], res[11]), ext=res[12], mesh=res[13], cond=res[14], matmodel=res[15], model=res[16], mtn=res[17])
                     gmodel, gseed, post = res[18], res[19], res[20]
                     try:
-                        expf = self.expected(w, k, v, gmodel, gseed, post, cur_pos)
+                        expf = self.expected(w, k, v, gmodel, gseed, post, cur_pos, MODE_NO + 8 * ob)
                     except Exception as e:  # noqa
                         self.tie_broken.append("recomputation from the model's provenance failed: %r" % (e,))
                         expf = None
@@ -608,7 +697,7 @@ class HistoryRunner:
                         case["tie_mismatch"] = dict(op=i, provenance=dict(k=k, v=v, gmodel=gmodel, seed=gseed, post=post))
                         # fall through to the property probe below: it decides whether this is a counter-example
             # ---- after EVERY step: the kriging setup of the object equals that of a fresh Krige built from the present values
-            bad = self.check_setup(w, csrf, model_now, dirty, cur_pos if kv_pos == (cur_pos, cur_xd) else None, cur_xd)
+            bad = self.check_setup(w, sn, model_now, dirty, cur_pos if rec["kv_here"] else None, cur_xd)
             if bad:
                 ctx.violation("probe: kriging setup after a history vs freshly built Krige",
                               "after op %d (%s) %s differ(s) from a Krige freshly built from the present model / conditions / mean-trend-normalizer"
@@ -618,13 +707,11 @@ class HistoryRunner:
             # ---- property probe: a freshly built object returns the identical field
             if kind == 2 and not dirty:
                 b, j, m = cur_pos
-                fresh, fstored = w.fresh_field(model_now, w.cur_cond, w.cur_mtn, cur_seed, w.pos(b, j, m), mesh_name(m), w.target_ext(b, j, m, cur_xd))
+                fresh, fstored = w.fresh_field(model_now, w.cur_cond, w.cur_mtn, cur_seed, w.pos(b, j, m), mesh_name(m), w.target_ext(b, j, m, cur_xd),
+                                               MODE_NO + 8 * ob)
                 sc = max(1.0, float(np.max(np.abs(fresh))))
                 ctx.count(None)
-                nm = NAMESETS[r[8]]
-                stored = dict(raw_field=csrf[nm[1]], krige_var=csrf.krige.krige_var, krige_field=csrf.krige.field)
-                if not r[6]:        # a call that does not store the raw kriging field leaves a previously stored one alone
-                    stored["raw_krige"] = csrf[nm[2]]
+                stored = sn["stored"]
                 bad_stored = [n for n in stored if np.shape(stored[n]) != np.shape(fstored[n]) or
                               not np.all(np.abs(np.asarray(stored[n]) - fstored[n]) <= 1e-12 * max(1.0, float(np.max(np.abs(fstored[n])))))]
                 if fresh.shape != out.shape or not np.all(np.abs(fresh - out) <= 1e-12 * sc) or bad_stored:
@@ -635,59 +722,55 @@ class HistoryRunner:
                     else:
                         key = "history:stale-after:" + last_change
                     ctx.violation("probe: call after a history vs freshly built object",
-                                  "field returned after op %d (%s, reuse=%s) differs from the field of a freshly built object "
-                                  "(max abs diff %.3g; stored fields that differ: %s; last change: %s)" % (i, OPN[code], reuse, diff, bad_stored, last_change),
+                                  "field returned after op %d (%s of CondSRF object %d, reuse=%s) differs from the field of a freshly built object "
+                                  "(max abs diff %.3g; stored fields that differ: %s; last change: %s)" % (i, OPN[code], ob, reuse, diff, bad_stored, last_change),
                                   dict(case, failed_op=i, max_abs_diff=diff, model=repr(model_now), mtn=mtn_repr(w.cur_mtn),
                                        got=[C.fhex(x) for x in out.ravel()[:40]], fresh=[C.fhex(x) for x in fresh.ravel()[:40]]), key=key)
                     return case
-        # ---- closing step (outside the model trace): exactness at the present conditioning points
-        return self.exactness(w, csrf, case, cur_seed)
+        return self.exactness(w, closing, case)
 
-    def check_setup(self, w, csrf, model_now, dirty, cur_pos, cur_xd=0):
-        kr = csrf.krige
+    def check_setup(self, w, sn, model_now, dirty, cur_pos, cur_xd=0):
         bad = []
 
         def differ(a, b):
             a, b = np.asarray(a, dtype=float), np.asarray(b, dtype=float)
             return a.shape != b.shape or not np.all(np.abs(a - b) <= 1e-12 * max(1.0, float(np.max(np.abs(b))) if b.size else 1.0))
-        if differ(kr.cond_val, w.cur_cond[1]):
+        if differ(sn["cond_val"], w.cur_cond[1]):
             bad.append("cond_val")
-        if differ(kr.cond_pos, np.array(w.cur_cond[0])):
+        if differ(sn["cond_pos"], np.array(w.cur_cond[0])):
             bad.append("cond_pos")
-        if w.ext and differ(kr.cond_ext_drift, np.atleast_2d(ext_fun(*w.cur_cond[0]))):
+        if w.ext and differ(sn["cond_ext"], np.atleast_2d(ext_fun(*w.cur_cond[0], k=w.next))):
             bad.append("cond_ext_drift")
-        if differ(kr.cond_err, float(model_now.nugget) if w.cur_cond[2] is None else w.cur_cond[2]):
+        if differ(sn["cond_err"], float(model_now.nugget) if w.cur_cond[2] is None else w.cur_cond[2]):
             bad.append("cond_err")
         if dirty or bad:
             return bad
         fk = w.krige(w.cur_cond, model_now, w.cur_mtn)
-        if differ(kr._krige_mat, fk._krige_mat):
+        if differ(sn["kmat"], fk._krige_mat):
             bad.append("inverted kriging matrix")
-        if differ(kr._krige_pos, fk._krige_pos):
+        if differ(sn["kpos"], fk._krige_pos):
             bad.append("isometrized conditioning positions")
-        if differ(kr._krige_cond, fk._krige_cond):
+        if differ(sn["kcond"], fk._krige_cond):
             bad.append("prepared conditioning values")
-        if not bad and cur_pos is not None and "krige_var" in kr.field_names and "field" in kr.field_names:
+        if not bad and cur_pos is not None and sn["krige_var"] is not None and sn["krige_field"] is not None:
             b, j, m = cur_pos
             f, v = fk(w.pos(b, j, m), mesh_type=mesh_name(m), store=False, **w.target_ext(b, j, m, cur_xd))
-            if differ(kr.krige_var, v):
+            if differ(sn["krige_var"], v):
                 bad.append("stored krige_var")
-            if differ(kr.field, f):
+            if differ(sn["krige_field"], f):
                 bad.append("stored kriging field")
         return bad
 
-    def exactness(self, w, csrf, case, cur_seed):
+    def exactness(self, w, cl, case):
         ctx = self.ctx
         eps = np.finfo(float).eps
+        w.cur_cond, w.cur_mtn = cl["cur_cond"], cl["cur_mtn"]
         cp, cv = np.array(w.cur_cond[0]), np.asarray(w.cur_cond[1])
-        ekw = dict(ext_drift=ext_fun(*cp)) if w.ext else {}
+        out, kvar, raw, condK = cl["out"], cl["kvar"], cl["raw"], cl["condK"]
         try:
-            condK = kmat_cond(csrf.krige)
-            out = np.array(csrf(cp.copy(), **ekw), copy=True)
-            kvar, raw = np.asarray(csrf.krige.krige_var), np.asarray(csrf.raw_field)
-            fresh, _ = w.fresh_field(copy.deepcopy(csrf.model), w.cur_cond, w.cur_mtn, cur_seed, cp.copy(), "unstructured", ekw)
+            fresh, _ = w.fresh_field(cl["model"], w.cur_cond, w.cur_mtn, cl["seed"], cp.copy(), "unstructured", cl["ekw"])
         except Exception as e:  # noqa
-            ctx.violation("probe: history", "exception in the closing call at the conditioning points: %r" % (e,), case, key="history:exception:closing")
+            ctx.violation("probe: history", "exception in the fresh reference of the closing call: %r" % (e,), case, key="history:exception:closing")
             return case
         ctx.count(None)
         if fresh.shape != out.shape or not np.all(np.abs(fresh - out) <= 1e-12 * max(1.0, float(np.max(np.abs(fresh))))):
@@ -695,7 +778,7 @@ class HistoryRunner:
                           % (float(np.max(np.abs(fresh - out))) if fresh.shape == out.shape else np.nan), case, key="history:stale-at-closing-call")
             return case
         if condK < 1e8 and w.cur_cond[2] is None:        # zero measurement error: the data are honoured exactly
-            var = float(csrf.model.var)
+            var = float(cl["model"].var)
             scale = 1.0 + float(np.max(np.abs(cv)))
             # deviation allowed in the normalized space (solver accuracy + sqrt of the remaining variance), mapped through the
             # denormalisation with a generous factor (its slope is bounded by (1+|y|)^2 for the normalizers used)
@@ -707,7 +790,7 @@ class HistoryRunner:
                 return case
         return None
 
-    def expected(self, w, k, v, gmodel, gseed, post, cur_pos):
+    def expected(self, w, k, v, gmodel, gseed, post, cur_pos, mode_no=MODE_NO):
         """the field computed independently from the provenance the model predicts"""
         gs = w.gs
 
@@ -722,7 +805,7 @@ class HistoryRunner:
         b, j, m = cur_pos
         pos = w.pos(b, j, m)
         mod = w.model[gmodel]
-        raw = gs.SRF(copy.deepcopy(mod), seed=gseed, mode_no=MODE_NO)(pos, mesh_type=mesh_name(m), store=False)
+        raw = gs.SRF(copy.deepcopy(mod), seed=gseed, mode_no=mode_no)(pos, mesh_type=mesh_name(m), store=False)
         shape = raw.shape
         rc = self.drv.call("cond_field", float(mod.nugget), float(mod.var), np.ravel(rk), np.ravel(kv), np.ravel(raw), np.zeros(raw.size))
         mt = w.mtn[post]
@@ -746,7 +829,8 @@ def kmat_cond(kr):
 def honour_probe(ctx, rng, drv, reps):
     import gstools as gs
     eps = np.finfo(float).eps
-    variants = ["Simple", "Ordinary", "Universal", "ExtDrift", "Detrended"]
+    # the five kriging classes + the generic Krige class with functional AND external drifts (1 and 2), unbiased on / off
+    variants = ["Simple", "Ordinary", "Universal", "ExtDrift", "Detrended", "Krige:lin+ext1:unb", "Krige:lin+ext1", "Krige:lin+ext2:unb", "Krige:lin+ext2"]
     models = [gs.Exponential, gs.Gaussian, gs.Spherical, gs.Stable, gs.Matern]
     for rep in range(reps):
         # every cell variant x dim x {no nugget, nugget with exact=True} is enumerated (not drawn)
@@ -760,6 +844,8 @@ def honour_probe(ctx, rng, drv, reps):
                 nc = int(rng.integers(3, min(6, grid.shape[1]) + 1))
                 if variant == "Universal":
                     nc = max(nc, dim + 3)       # enough data for the linear drift
+                if variant.startswith("Krige:"):
+                    nc = min(grid.shape[1], dim + 5)
                 sel = rng.choice(grid.shape[1], size=nc, replace=False)
                 cp = grid[:, sel]
                 cv = rng.normal(size=nc) * 2
@@ -767,7 +853,20 @@ def honour_probe(ctx, rng, drv, reps):
                 kw = dict(exact=True) if nug > 0 else {}
                 call_kw = {}
                 ed_fun = lambda *x: 0.3 * x[0] + 0.1        # noqa: E731  external drift as a function of position
-                if variant == "Simple":
+                try:
+                    kr = None
+                    if variant.startswith("Krige:"):
+                        nxt = 2 if "ext2" in variant else 1
+                        ed_fun = lambda *x: ext_fun(*x, k=nxt)        # noqa: E731
+                        kr = gs.krige.Krige(model, cp, cv, drift_functions="linear", ext_drift=ed_fun(*cp), unbiased=variant.endswith(":unb"), **kw)
+                except Exception as e:  # noqa
+                    ctx.violation("probe: honour the data", "building %s raised %r" % (variant, e),
+                                  dict(probe="honour-data", variant=variant, dim=dim, model=repr(model), cond_pos=cp.tolist(), cond_val=cv.tolist()),
+                                  key="honour:exception:" + variant)
+                    continue
+                if kr is not None:
+                    pass
+                elif variant == "Simple":
                     kr = gs.krige.Simple(model, cp, cv, mean=float(rng.normal()), **kw)
                 elif variant == "Ordinary":
                     kr = gs.krige.Ordinary(model, cp, cv, **kw)
@@ -788,7 +887,7 @@ def honour_probe(ctx, rng, drv, reps):
                     tgt = pos
                     at = [(int(np.where(perm == i)[0][0]),) for i in range(nc)]
                 npts = int(np.prod(tgt.shape[1:]))
-                if variant == "ExtDrift":
+                if variant == "ExtDrift" or variant.startswith("Krige:"):
                     call_kw["ext_drift"] = ed_fun(*tgt.reshape(dim, -1))
                 try:
                     condK = kmat_cond(kr)
@@ -1162,6 +1261,66 @@ def partial_pos_probe(ctx, rng, reps):
                                       % (keep, mt, dim, entry, float(np.max(np.abs(f - fresh)))), case, key="partial-pos:%s:%s" % (mt, entry))
 
 
+def multi_object_probe(ctx, rng, reps):
+    """2-3 CondSRF objects on ONE Krige object (and others on another Krige in between): after a change of the conditions /
+    the model / the mean every object must return what a fresh object returns.  All references are built AFTER the whole
+    sequence has run (a CondSRF created in between could mask a cross-object effect)."""
+    import gstools as gs
+    for rep in range(reps):
+        for change in ("set_condition(cond_val=new)", "model.len_scale + set_condition()", "mean =", "model = new object"):
+            for nob in (2, 3):
+                dim = int(rng.integers(1, 4))
+                st = dict(cls=[gs.Exponential, gs.Gaussian][int(rng.integers(2))], mkw=dict(dim=dim, var=float(rng.uniform(0.5, 2)), len_scale=float(rng.uniform(0.6, 2))),
+                          cp=rng.uniform(1, 6, size=(dim, 4)), cv=rng.normal(size=4), mean=float(rng.normal()))
+                pos = rng.uniform(0.5, 6.5, size=(dim, 6))
+                order = [int(x) for x in rng.permutation(nob)]
+                case = dict(probe="multi-object", objects=nob, change=change, call_order_after_change=order, model=repr(st["cls"](**st["mkw"])),
+                            cond_pos=st["cp"].tolist(), cond_val=st["cv"].tolist(), pos=pos.tolist())
+                ctx.count(("multi-object", change, nob), hist=dict(probe="multi-object", change=change, objects=nob))
+                try:
+                    kr = gs.krige.Simple(st["cls"](**st["mkw"]), st["cp"].copy(), st["cv"].copy(), mean=st["mean"])
+                    objs = [gs.CondSRF(kr, seed=10 + k, mode_no=24 + 8 * k) for k in range(nob)]
+                    okr = gs.krige.Ordinary(gs.Exponential(dim=dim), rng.uniform(1, 6, size=(dim, 3)), rng.normal(size=3))
+                    other = gs.CondSRF(okr, seed=1, mode_no=16)
+                    objs[0](pos)
+                    for c in objs[1:]:
+                        c()
+                    other(pos)
+                    if change.startswith("set_condition(cond_val"):
+                        st["cv"] = rng.normal(size=4)
+                        kr.set_condition(cond_val=st["cv"].copy())
+                    elif change.startswith("model.len_scale"):
+                        st["mkw"] = dict(st["mkw"], len_scale=st["mkw"]["len_scale"] * 1.6)
+                        kr.model.len_scale = st["mkw"]["len_scale"]
+                        kr.set_condition()
+                    elif change == "mean =":
+                        st["mean"] = float(rng.normal())
+                        objs[-1].mean = st["mean"]
+                    else:
+                        st["mkw"] = dict(st["mkw"], var=st["mkw"]["var"] * 1.4)
+                        objs[0].model = st["cls"](**st["mkw"])
+                    got = {}
+                    interleave = bool(rng.random() < 0.4)        # calls of the unrelated object in between can mask cross-object effects
+                    for k in order:
+                        got[k] = np.array(objs[k](), copy=True)
+                        if interleave:
+                            other()
+                    # references, built only now
+                    bad = []
+                    for k in order:
+                        fk = gs.krige.Simple(st["cls"](**st["mkw"]), st["cp"].copy(), st["cv"].copy(), mean=st["mean"])
+                        fresh = gs.CondSRF(fk, seed=10 + k, mode_no=24 + 8 * k)(pos)
+                        if not np.all(np.abs(fresh - got[k]) <= 1e-12 * (1 + np.abs(fresh))):
+                            bad.append((k, float(np.max(np.abs(fresh - got[k])))))
+                except Exception as e:  # noqa
+                    ctx.violation("probe: several CondSRF objects on one Krige", "exception %r" % (e,), case, key="multi-object:exception")
+                    continue
+                if bad:
+                    ctx.violation("probe: several CondSRF objects on one Krige",
+                                  "after '%s' and calls in the order %s, object(s) %s differ from a fresh object (max diff %.3g)"
+                                  % (change, order, [k for k, _ in bad], max(d for _, d in bad)), dict(case, differing=bad), key="multi-object:" + change)
+
+
 def corpus_cases():
     d = os.path.join(C.VERIF, "corpus", "C07")
     out = []
@@ -1184,7 +1343,7 @@ def run(ctx, only_history=None):
     rng = C.Rng(ctx.seed, "C07")
     thorough = ctx.tier == "thorough"
     merge_local_known_findings(ctx)
-    ctx.rule = ("operation histories of <= 10 operations (+ closing refresh/call + call at the conditioning points) over {call(pos?, seed?, 1-3 store-name sets, store raw_krige?, chunk_size none/1/not dividing/> n), set_pos, re-assignment of the same edited model object, in-place edits of cond_pos/cond_val/ext_drift/cond_err arrays, explicit cond_err worlds (scalar / per point) and set_condition(cond_err=), positions that keep some coordinate rows/axes, per-call ext_drift ids, "
+    ctx.rule = ("operation histories of <= 10 operations (+ closing refresh/call + call at the conditioning points) over {call(pos?, seed?, 1-3 store-name sets, store raw_krige?, chunk_size none/1/not dividing/> n), set_pos, re-assignment of the same edited model object, in-place edits of cond_pos/cond_val/ext_drift/cond_err arrays, explicit cond_err worlds (scalar / per point) and set_condition(cond_err=), positions that keep some coordinate rows/axes, per-call ext_drift ids, 1-3 CondSRF objects on one Krige + unrelated objects in between, functional and 0-2 external drifts, "
                 "set_condition(new values / new positions / refresh), in-place model change, model / mean / trend / normalizer re-assignment, "
                 "set_generator, in-place edit of the caller's position array, direct krige(pos?) call, csrf.pos = ...}, positions passed as "
                 "float64 ndarrays (aliasing-prone), dim 1-3, simple/ordinary/universal kriging, scalar and callable trend, YeoJohnson/Modulus "
@@ -1255,6 +1414,7 @@ def run(ctx, only_history=None):
         farfield_probe(ctx, rng, 10 if thorough else 3)
         window_probe(ctx, rng)
         partial_pos_probe(ctx, rng, 3 if thorough else 1)
+        multi_object_probe(ctx, rng, 4 if thorough else 1)
         cond_err_probe(ctx, rng, 4 if thorough else 1)
         C.log("[C07]   probes done: %.1fs" % (time.time() - t0))
     finally:
